@@ -47,7 +47,7 @@ var hsFaultKinds = []int{fErr, fTimeout, fEOF, fShort}
 func genC16(r *PRNG, tier string) *Scenario {
 	scn := &Scenario{Prop: "C16", Seed: r.Uint64() >> 1, Sched: genSched(r), HS: &HSScn{}}
 	scn.Sched.IdleHorizon = 2 * 3600 * 1000
-	class := r.PickS([]string{"client-fault", "client-fault", "client-stall", "client-stall", "negative", "server-fault"})
+	class := r.PickS([]string{"client-fault", "client-fault", "client-stall", "client-stall", "negative", "server-fault", "tight-deadline", "tight-deadline"})
 	scn.Class = class
 	if class == "server-fault" {
 		return genC16Server(r, scn)
@@ -55,6 +55,10 @@ func genC16(r *PRNG, tier string) *Scenario {
 	d := HSDial{RBuf: genBuf(r), WBuf: genBuf(r), Comp: r.Bool()}
 	kind := r.PickS([]string{"direct", "direct", "http", "https", "socks5"})
 	wss := r.Chance(1, 2)
+	if class == "tight-deadline" && r.Chance(3, 4) {
+		// mostly on paths without TLS, where deadline calls can be made scheduling points (see below)
+		kind, wss = r.PickS([]string{"direct", "direct", "http", "socks5"}), false
+	}
 	genPath(r, &d, kind, wss)
 	d.Backend.Kind = "upgrader"
 	d.Backend.Comp = r.Bool()
@@ -65,6 +69,20 @@ func genC16(r *PRNG, tier string) *Scenario {
 			d.HsTimeoutMs = int64(r.Pick([]int{5000, 45000}))
 		}
 		cc.FaultsA = []OpFault{{Side: "a", K: r.Range(0, 45), Kind: hsFaultKinds[r.Intn(len(hsFaultKinds))], N: r.Pick([]int{0, 1, 10, 100})}}
+		d.IdleMs = 3600 * 1000
+	case "tight-deadline":
+		// nothing goes wrong, but the clock advances while the handshake is in progress and the
+		// time-out is of the order of those advances: it may expire at any operation, or just as the
+		// handshake completes. Either Dial fails in time and cleans up, or it returns a usable connection.
+		scn.Sched.TickPermil = r.Pick([]int{3, 10, 30})
+		// deadline calls become scheduling points where no crypto/tls mutex can be held across them
+		scn.Sched.YieldOnDeadline = !wss && kind != "https"
+		ms := int64(r.Pick([]int{1, 1, 1, 2, 100, 1000, 1100, 10000}))
+		if r.Bool() {
+			d.HsTimeoutMs = ms
+		} else {
+			d.CtxTimeoutMs = ms
+		}
 		d.IdleMs = 3600 * 1000
 	case "client-stall":
 		if r.Chance(2, 3) {
@@ -195,8 +213,16 @@ func oracleC16(run *Run) {
 		return
 	}
 	run.Obligations++
-	if timeout > 0 && res.Conn == nil {
-		if limit := res.Start + timeout*1e6; res.End > limit {
+	if timeout > 0 && res.Conn == nil && run.Scn.Sched.TickPermil == 0 {
+		// (when the clock also advances while operations are runnable - the tight-deadline class - the
+		// delay may be the scheduler's, as on a starved machine, and no bound on the return time is claimed)
+		// time spent inside the caller's own dial hook is not the library's to bound (a hook without a
+		// context cannot even be told about the deadline)
+		hookNanos := int64(0)
+		for _, hc := range res.Hooks {
+			hookNanos += hc.HookNanos
+		}
+		if limit := res.Start + timeout*1e6 + hookNanos; res.End > limit {
 			run.fail("C16", "late-handshake-timeout", pathKind(d), "%s: time-out %d ms, Dial returned at t=%d ms (started at %d ms): some transport operation of the handshake ran without a deadline", path, timeout, res.End/1e6, res.Start/1e6)
 		}
 	}
@@ -218,8 +244,8 @@ func oracleC16(run *Run) {
 	first := res.Hooks[0].Conn
 	faultAfter := false
 	for _, c := range first.Calls() {
-		if c.Fault != 0 && c.Step > res.StepEnd {
-			faultAfter = true
+		if c.Fault != 0 && c.Fault != fDeadline && c.Step > res.StepEnd {
+			faultAfter = true // an injected fault landed after the handshake (a deadline that expires is not one)
 		}
 	}
 	if d.IdleMs > 0 && res.PostDone && !faultAfter && res.PostErr != "" {
